@@ -313,7 +313,8 @@ Section Api.
     | Some sr =>
         if s_armed sr then
           let w1 := if opens_fd (s_kind sr) then set_fds w (w_fds w - 1) else w in
-          upd_src w1 s (src_with false 0 false)
+          (* expirations / notifications die with the internal descriptor; a pending signal stays pending in the process *)
+          upd_src w1 s (src_with false (match s_kind sr with KSgn => s_pending sr | _ => 0 end) false)
         else w
     end.
 
@@ -433,7 +434,7 @@ Section Api.
             let w2 := upd_ctx w1 (ctx_with_curr (Some m)) in
             let h := match m_recvs mr with x :: _ => x | [] => 0 end in
             let w3 := upd_mod w2 m (mod_with_cbn (m_eval_n mr) (m_start_n mr) (m_stop_n mr) (S (m_evt_n mr))) in
-            let w4 := emit w3 (TCb m CbEvt (m_evt_n mr) h (map describe evts)) in
+            let w4 := emit w3 (TCb m CbEvt (m_evt_n mr) h (m_state mr) (map describe evts)) in
             let '(w5, _) := run_cb w4 m CbEvt h evts in
             let w6 := emit w5 TCbEnd in
             let w7 := match get_mod w6 m with
@@ -597,7 +598,7 @@ Section Api.
                                     | CbEval => mod_with_cbn (S (m_eval_n mr)) (m_start_n mr) (m_stop_n mr) (m_evt_n mr)
                                     | CbStart => mod_with_cbn (m_eval_n mr) (S (m_start_n mr)) (m_stop_n mr) (m_evt_n mr)
                                     | _ => mod_with_cbn (m_eval_n mr) (m_start_n mr) (S (m_stop_n mr)) (m_evt_n mr) end) in
-            let '(wr, b) := run_cb (emit wc (TCb m k n 0 [])) m k 0 [] in
+            let '(wr, b) := run_cb (emit wc (TCb m k n 0 (m_state mr) [])) m k 0 [] in
             (emit wr TCbEnd, match k with CbStop => true | _ => b end)
           else (w2, true) in
         let w4 := upd_ctx w3 (ctx_with_curr None) in
@@ -819,9 +820,11 @@ Section Api.
                   | None => (w, 0%Z) end
               | None => (w, 0%Z) end in
             if negb (r1 =? 0)%Z then (w1, r1) else
-            match w_tls w1 with
-            | None => (w1, rEPIPE)
+            (* the replaced module's on_stop may have torn down or finalized the context *)
+            match (match tbl_find (ms_slot sp) (c_modules c) with Some _ => the_ctx w1 | None => w_tls w1 end) with
+            | None => (w1, rEPERM)
             | Some c1 =>
+                if c_finalized c1 then (w1, rEPERM) else
                 (* the module object: one reference for the table, one for the user's handle; it holds a reference on the context *)
                 let w2 := href w1 (c_obj c1) in
                 let '(w3, o) := halloc w2 OMod [c_obj c1] (N.of_nat m) in
@@ -944,7 +947,7 @@ Section Api.
     match get_src w i with
     | None => (w, 0)
     | Some s =>
-        if negb (hlive w (s_obj s)) then (emit w (TFault 8), 0) else         (* D08 region: stale source in the batch *)
+        if negb (s_armed s) then (w, 0) else           (* stopped polling earlier in this batch: skipped *)
         match s_mod s with
         | None =>
             (* context source: the tick *)
@@ -1016,9 +1019,18 @@ Section Api.
     end.
 
   Definition recv_events (w : world) : world * Z :=
-    let w0 := set_errno w 0 in
-    let batch := ready_set w0 in
-    let '(w1, n) := fold_left (fun acc i => let '(w, n) := acc in let '(w', k) := process_one w i in (w', n + k)) batch (w0, 0) in
+    let w00 := set_errno w 0 in
+    let batch := ready_set w00 in
+    (* every source of the batch, and its module, stays referenced until the batch is done *)
+    let objs_of w i := match get_src w i with
+                       | Some s => s_obj s :: match s_mod s with
+                                              | Some m => match get_mod w m with Some mr => [m_obj mr] | None => [] end
+                                              | None => [] end
+                       | None => [] end in
+    let held := flat_map (objs_of w00) batch in
+    let w0 := fold_left href held w00 in
+    let '(w1', n) := fold_left (fun acc i => let '(w, n) := acc in let '(w', k) := process_one w i in (w', n + k)) batch (w0, 0) in
+    let w1 := fold_left hunref held w1' in
     if Nat.ltb 0 n then
       let w2 := eval_pass w1 in
       (upd_ctx w2 (fun c => ctx_with_recv (c_recv c + n) c), Z.of_nat n)
